@@ -107,6 +107,10 @@ func runC01(r *Run) {
 	detTPS(r, sc)
 	detFloat(r, sc, S)
 	detModuleOrders(r)
+	r.Rule("R8", "FLOW.node-local-config: values read from the node's app options (appOpts.Get → struct fields → constructor parameters, tracked interprocedurally) are used in consensus scope only under ctx.IsCheckTx()/IsReCheckTx(), or at tabled observer-only sites")
+	checkNodeLocalConfig(r, "R8", sc)
+	r.Rule("R9", "DET.unordered-keys: the result of maps.Keys/maps.Values in S∪K must be passed to a sort function in the same function")
+	detMapsKeys(r, sc, inScope)
 	_ = P
 }
 
@@ -890,4 +894,68 @@ func detModuleOrders(r *Run) {
 			fmt.Sprintf("%s lists %d distinct modules, NewManager has %d, difference to BeginBlockers order: %v, duplicate: %q", o, len(set), len(managerMods), diff, dup))
 	}
 	// crisis first in EndBlockers is C15; here only completeness.
+}
+
+// ---------- R9 maps.Keys / maps.Values ----------
+
+func detMapsKeys(r *Run, sc *Scopes, inScope map[*ssa.Function]string) {
+	P := r.P
+	n := 0
+	var fns []*ssa.Function
+	for f := range inScope {
+		fns = append(fns, f)
+	}
+	sort.Slice(fns, func(i, j int) bool { return fnID(fns[i]) < fnID(fns[j]) })
+	for _, fn := range fns {
+		if isGeneratedFile(P.FileOf(fnPos(fn))) {
+			continue
+		}
+		eachCall(fn, func(ci CallInfo) {
+			if !((ci.PkgPath == "maps" || strings.HasSuffix(ci.PkgPath, "x/exp/maps")) && (ci.Name == "Keys" || ci.Name == "Values")) {
+				return
+			}
+			n++
+			v := ci.Instr.Value()
+			sorted := false
+			if v != nil {
+				seen := map[ssa.Value]bool{}
+				var walk func(x ssa.Value)
+				walk = func(x ssa.Value) {
+					if seen[x] || x.Referrers() == nil {
+						return
+					}
+					seen[x] = true
+					for _, ref := range *x.Referrers() {
+						switch y := ref.(type) {
+						case ssa.CallInstruction:
+							c := callInfo(y)
+							if (c.PkgPath == "sort" || c.PkgPath == "slices" || strings.HasSuffix(c.PkgPath, "x/exp/slices")) && (strings.HasPrefix(c.Name, "Sort") || c.Name == "Strings" || c.Name == "Ints" || c.Name == "Slice" || c.Name == "SliceStable" || c.Name == "Stable") {
+								sorted = true
+							}
+						case *ssa.Store:
+							if al, ok := y.Addr.(*ssa.Alloc); ok {
+								walk(al)
+							}
+						case *ssa.UnOp:
+							walk(y)
+						case *ssa.ChangeType:
+							walk(y)
+						case *ssa.MakeInterface:
+							walk(y)
+						case *ssa.Phi:
+							walk(y)
+						}
+					}
+				}
+				walk(v)
+			}
+			chain := sc.S.Chain(fn)
+			if inScope[fn] == "K" {
+				chain = sc.K.Chain(fn)
+			}
+			r.Check(sorted, "R9", fmt.Sprintf("%s#%s.%s", fnID(fn), "maps", ci.Name), P.Pos(instrPos(ci.Instr)), "unordered key/value slice is sorted before use",
+				"maps."+ci.Name+" returns the entries in Go's randomised map order and the result is not sorted in this function: anything derived from its order differs between replicas", chain...)
+		})
+	}
+	r.Count("R9 maps.Keys/Values calls in S∪K", n)
 }
